@@ -282,7 +282,7 @@ claim("C03",
            "breaks and `: , < ( [ ] { }`, not starting with `|` or `#`). That the character model equals the regex engine is compared "
            "on every generated, damaged and stress text. The json and penman libraries "
            "are identity parameters; the oracle goes through their real text. Upper/lower case modelled for ASCII. Duplicate node "
-           "ids, dangling edge targets and non-symbol strings are outside the theorems (correspondence only).",
+           "ids, dangling edge targets and non-symbol strings are outside the theorems (correspondence only); F40 (known finding): EDS-PENMAN loses a predicate that equals a node identifier (penman writes the :instance triple as an inverted edge) — the Lean model has penman as an identity parameter and cannot exhibit it, the PENMAN oracle judges such graphs and the classifier recognises exactly that class. Node ids colliding with property values, constants, types, role names and numeric ids are part of every run.",
       technique="Lean 4 proof over executable model + differential correspondence with the Python implementation",
       design_ref="DESIGN.md §5 C03")
 
